@@ -117,7 +117,7 @@ class P(vlib.Prop):
         "Coq 8.16.1 kernel + vm_compute (coqc); no axioms (Print Assumptions: closed under the global context)",
         "memory model of C07/Model.v: the acyclic pdata object graph presented as its unfolding with addresses (that the structural update is the heap update is a theorem: sep_invariant + store_is_structural_update); Go's append/make/reslice/clear semantics as written there",
         "hand-written schema instance pmetric_schema (mirrored in harness/C07/pmetric_test.go), tied by the correspondence run",
-        "source scan in props/C07/check.py (regex over generated_*.go, map.go, slice.go, value.go ...) producing Generated/C07PdataMutators.v; cross-checked at run time by the reflection sweep over the same method sets",
+        "translator T1 (tools/go2coq) for constants, String methods and method sets; source scan in props/C07/check.py (regex over generated_*.go, map.go, slice.go, value.go ...) producing Generated/C07PdataMutators.v; cross-checked at run time by the reflection sweep over the same method sets",
         "Go harnesses harness/C07/*.go(.tmpl) + go test -overlay; Go toolchain; reflect",
     ]
     assumptions = [
@@ -130,6 +130,8 @@ class P(vlib.Prop):
     def translate(self, ctx):
         """(T) mutator table from a source scan of every pdata data-model package ->
         coq/Generated/C07PdataMutators.v; (R) per-package constructor registry for the sweep harness."""
+        # (T1) constants, String methods and method sets read by tools/go2coq from the current source (honours the overlay)
+        vlib.go2coq(ctx, "pdata", os.path.join(HERE, "t1_spec.json"), "C07Consts")
         rows = []
         tmpl = open(os.path.join(vlib.VERIF, "harness", "C07", "sweep_test.go.tmpl")).read()
         for gopkg, module, pkg in PKGS:
